@@ -270,10 +270,10 @@ ADDENDA = {
            "the process is a run that did not terminate.",
     "C10": " Histories also contain pins the (harness) kernel refuses - nothing may change and the call may not return normally - and plain threads that inherit "
            "their creator's OS affinity and pin themselves; a 'full' embedding replays the set of all abstract processors as every processor of the instance. Pin sets reach the library through filter() or take_exact (descending / first-and-last-from-one-region order), and hardware instances created at the same moment on 4 threads are used in turn by a fresh thread (instance identity).",
-    "C12": " PerThread.tla also explores instance factories that re-enter acquire() on the same wrapper on the same thread and keep the reference (acqr).",
+    "C12": " PerThread.tla also explores instance factories that re-enter acquire() on the same wrapper on the same thread and keep the reference (acqr). A free-running driver races a foreign drop of the owner thread's only RefSync against the owner's acquire() pairs; its summary record is judged by LinkedAbs (second live instance on one thread).",
     "C14": " Spawn wake-ups are modelled with event-listener's additive / non-additive notify semantics (switch NotifyAdditional read from the source); bound G "
            "(1 processor x 2 workers, a task body that returns only after another task ran) checks NoIdleLost: no worker sleeps un-notified next to queued work "
-           "while the others are busy (finding S16, fixed). Every task closure owns a guard whose destructor spawns on the same scheduler when the closure is destroyed without having run (abandoned at shutdown / refused).",
+           "while the others are busy (finding S16, fixed). Every task closure owns a guard whose destructor spawns on the same scheduler when the closure is destroyed without having run (abandoned at shutdown / refused). Every fourth free-running scenario is a fan-out: a task body waits for a helper thread that spawns onto a never-used processor while the pool is dropped.",
     "C15": " The trace-level RC11 layer gives every remote wake a publication of its own and obliges the poll after the consuming check_activated to see the "
            "publication of every wake that touched the activation flag in any way (load, swap, CAS). Many-future stimuli (33..48 futures woken remotely between two polls, MaxF = 48) and task wakers of an executor that holds a per-task lock while polling and takes it in wake().",
     "C18": " Two threads creating the same new operation: the harness's own global allocator parks the first inside each allocation of Session::operation() while "
